@@ -1379,6 +1379,11 @@ class Engine(Executor):
 
     def ev_iter(self, e, st):
         """Evaluate a loop iterable; enumerate()/range()/reversed()/.items() become descriptors."""
+        if isinstance(e, ast.Call) and isinstance(e.func, ast.Name) and e.func.id == "list" and len(e.args) == 1 \
+                and not e.keywords and "list" not in st.env and isinstance(e.args[0], (ast.Name, ast.Attribute)):
+            # `list(X)` as (part of) a loop's iterable, e.g. enumerate(list(data)): a snapshot taken at loop entry --
+            # which is how every iterable is modelled here (count and elements are fixed in the entry state)
+            return self.ev_iter(e.args[0], st)
         if isinstance(e, ast.Call) and isinstance(e.func, ast.Name) and e.func.id in ("enumerate", "range", "reversed") \
                 and e.func.id not in st.env:
             if e.func.id == "reversed" and len(e.args) == 1:
